@@ -25,6 +25,9 @@ type ConcCase struct {
 	Level    int      `json:"level"`    // 0..3
 	Interval int      `json:"interval"` // 0 = no rate limit, otherwise seconds (>= 3600: far longer than the run)
 	Workers  [][]CMsg `json:"workers"`
+	// Loggers > 1: that many logger objects with the same home, id and object name (a logger re-created after a
+	// reconfiguration, a second component of the process): they all append to the one file; goroutine g uses logger g mod Loggers
+	Loggers int `json:"loggers,omitempty"`
 }
 
 // workerKey is the limiter id of goroutine g's k-th private id: exactly 10 bytes, disjoint between goroutines.
@@ -39,9 +42,17 @@ func runConc(c ConcCase) *pbt.Result {
 	clk := &vclock{}
 	defer clk.reset()
 	clk.set(base2k + 9000*dayMs + 12*3600000) // noon: the (frozen-delta) clock stays far from a date change
-	l := logfile.NewNoRunForVerif(logfile.WithHomePath(home), logfile.WithOnameLogID("boot", "wt"), logfile.WithLevel(c.Level))
-	defer l.CloseForVerif()
-	l.ApplyConfig(mapConf{"log_level": []string{"debug", "info", "warn", "error"}[c.Level], "_log_interval": strconv.Itoa(c.Interval)})
+	nl := c.Loggers
+	if nl < 1 {
+		nl = 1
+	}
+	var ls []*logfile.FileLogger
+	for i := 0; i < nl; i++ {
+		l := logfile.NewNoRunForVerif(logfile.WithHomePath(home), logfile.WithOnameLogID("boot", "wt"), logfile.WithLevel(c.Level))
+		defer l.CloseForVerif()
+		l.ApplyConfig(mapConf{"log_level": []string{"debug", "info", "warn", "error"}[c.Level], "_log_interval": strconv.Itoa(c.Interval)})
+		ls = append(ls, l)
+	}
 
 	// per-goroutine model: level gate, then "first accepted line per id" when the limiter is on
 	type exp struct{ mark, text string }
@@ -57,7 +68,7 @@ func runConc(c ConcCase) *pbt.Result {
 			defer wg.Done()
 			<-start
 			for i, m := range msgs {
-				texts[g][i] = callAPI(l, m.API, workerKey(g, m.ID), marker(fmt.Sprintf("%d.", g), i), filler(m.Tail, g*31+i))
+				texts[g][i] = callAPI(ls[g%len(ls)], m.API, workerKey(g, m.ID), marker(fmt.Sprintf("%d.", g), i), filler(m.Tail, g*31+i))
 			}
 		}(g, msgs)
 	}
@@ -130,7 +141,7 @@ func runConc(c ConcCase) *pbt.Result {
 			return pbt.Fail("goroutine %d: %d of its %d accepted lines are in the file; first missing %s", g, next[g], len(expected[g]), expected[g][next[g]].mark)
 		}
 	}
-	cl := []string{"goroutines=" + strconv.Itoa(len(c.Workers)), "lines=" + bucket(total/10) + "x10"}
+	cl := []string{"goroutines=" + strconv.Itoa(len(c.Workers)), "lines=" + bucket(total/10) + "x10", "logger-objects-on-the-file=" + strconv.Itoa(nl)}
 	if supp > 0 {
 		cl = append(cl, "with-suppression")
 	}
@@ -153,15 +164,88 @@ func drawConc(t *rapid.T) ConcCase {
 		}
 		c.Workers = append(c.Workers, ms)
 	}
+	c.Loggers = rapid.SampledFrom([]int{1, 1, 2, 3}).Draw(t, "loggers")
 	return c
 }
 
 var specConc = pbt.Register(pbt.Spec[ConcCase]{
 	Prop: "C17", Name: "concurrent-logging",
-	Rule:  "2-6 goroutines each issue 1-60 calls over the 12 logging methods with goroutine-private 10-byte ids (<= 21 per goroutine), messages up to 9 KB, generated level and interval (0 or >= 1 h), virtual clock delta fixed at noon; oracle (sound for any schedule): the single log file holds exactly the lines the level gate and the per-id limiter accept, each whole and alone on its line, each goroutine's lines in its call order; non-trivial = >= 2 goroutines with on average >= 2 accepted lines; distinct by case",
+	Rule:  "2-6 goroutines, spread over 1-3 logger objects that share home, id and object name (one file), each issue 1-60 calls over the 12 logging methods with goroutine-private 10-byte ids (<= 21 per goroutine), messages up to 9 KB, generated level and interval (0 or >= 1 h), virtual clock delta fixed at noon; oracle (sound for any schedule): the single log file holds exactly the lines the level gate and the per-id limiter accept, each whole and alone on its line, each goroutine's lines in its call order; non-trivial = >= 2 goroutines with on average >= 2 accepted lines; distinct by case",
 	Quick: 400, Thorough: 12000,
 	Draw: drawConc,
 	Run:  runConc,
 })
 
 func TestConcurrentLogging(t *testing.T) { specConc.Check(t) }
+
+// ---- rotation when the new day's file cannot be opened at first ---------------------------------------------------
+
+type RotFaultCase struct {
+	ID      int `json:"id"`
+	Oname   int `json:"oname"`
+	Blocked int `json:"blocked"` // cycles that run while the new file's name is taken by a directory
+	After   int `json:"after"`   // cycles that run after the obstacle is gone, before the judged line is logged
+	Days    int `json:"days"`    // the date moves on by this many days
+}
+
+func runRotFault(c RotFaultCase) *pbt.Result {
+	home, err := newHome("rotf")
+	if err != nil {
+		panic(err)
+	}
+	defer os.RemoveAll(home)
+	clk := &vclock{}
+	defer clk.reset()
+	day := int64(9100)
+	clk.set(base2k + day*dayMs + 12*3600000)
+	id, on := logIDs[c.ID%len(logIDs)], onames[c.Oname%len(onames)]
+	l := logfile.NewNoRunForVerif(logfile.WithHomePath(home), logfile.WithOnameLogID(on, id), logfile.WithLevel(0))
+	defer l.CloseForVerif()
+	name := func(d int64) string {
+		if on == "" {
+			return fmt.Sprintf("%s-%s.log", id, ymd(d))
+		}
+		return fmt.Sprintf("%s-%s-%s.log", id, on, ymd(d))
+	}
+	callAPI(l, "Println", "rotf-id-0001", marker("a", 0), "before the date changes")
+	next := day + int64(c.Days)
+	blocker := filepath.Join(logsDir(home), name(next))
+	if err := os.Mkdir(blocker, 0o755); err != nil {
+		panic(err)
+	}
+	clk.set(base2k + next*dayMs + 5000)
+	for i := 0; i < c.Blocked; i++ {
+		l.CycleForVerif()
+		callAPI(l, "Println", fmt.Sprintf("rotf-id-1%03d", i), marker("b", i), "while the new file cannot be opened") // where this goes is not judged
+	}
+	if err := os.Remove(blocker); err != nil {
+		panic(err)
+	}
+	for i := 0; i < c.After; i++ {
+		clk.add(11000)
+		l.CycleForVerif()
+	}
+	text := callAPI(l, "Println", "rotf-id-2000", marker("c", 0), "after the obstacle is gone")
+	b, err := os.ReadFile(filepath.Join(logsDir(home), name(next)))
+	if err != nil {
+		return pbt.Fail("the date changed from %s to %s; the first %d cycles could not open %s (a directory had that name), the directory was removed and %d more cycles ran: the new day's file still does not exist (%v)", ymd(day), ymd(next), c.Blocked, name(next), c.After, err)
+	}
+	if !strings.Contains(string(b), text) {
+		old, _ := os.ReadFile(filepath.Join(logsDir(home), name(day)))
+		return pbt.Fail("the date changed to %s, %d cycles failed to open the new file, the obstacle was removed and %d more cycles ran: the line logged afterwards is not in %s (in the old day's file: %v)", ymd(next), c.Blocked, c.After, name(next), strings.Contains(string(old), text))
+	}
+	return &pbt.Result{NT: true, Classes: []string{fmt.Sprintf("blocked-cycles=%d", c.Blocked), fmt.Sprintf("cycles-after=%d", c.After)}}
+}
+
+var specRotFault = pbt.Register(pbt.Spec[RotFaultCase]{
+	Prop: "C17", Name: "rotation-after-failed-open",
+	Rule:  "the date moves on by 1-3 days while a directory occupies the name of the new day's log file; 1-3 cycles run (and fail to open it), the directory is removed, 1-3 further cycles run 11 s apart, then a line is logged: it must be in the new day's file; every case is non-trivial; distinct by case",
+	Quick: 60, Thorough: 1500,
+	Draw: func(t *rapid.T) RotFaultCase {
+		return RotFaultCase{ID: rapid.IntRange(0, 5).Draw(t, "id"), Oname: rapid.IntRange(0, 5).Draw(t, "oname"), Blocked: rapid.IntRange(1, 3).Draw(t, "blocked"),
+			After: rapid.IntRange(1, 3).Draw(t, "after"), Days: rapid.IntRange(1, 3).Draw(t, "days")}
+	},
+	Run: runRotFault,
+})
+
+func TestRotationAfterFailedOpen(t *testing.T) { specRotFault.Check(t) }
